@@ -99,6 +99,9 @@ func (l Layout) annotation(n *SNode, indent string) string {
 			if l.QuoteNames {
 				val = quoteInnerNames(val, l.EscNames)
 			}
+			if l.Pad != "" {
+				val = padInnerColons(val, l.Pad)
+			}
 			if l.Ann == "multi-broken-colon" {
 				// a line break on either side of the colon
 				// (a bare name ends at the first blank; only a quoted one may be followed
@@ -168,6 +171,33 @@ func quoteInnerNames(v string, esc bool) string {
 			b.WriteByte(c)
 			i++
 		}
+	}
+	return b.String()
+}
+
+// padInnerColons puts the padding before the colon of every name inside a rule value
+// (the rules of the rule-sets of an `or` list), as the printer does for the names of
+// the annotation itself.
+func padInnerColons(v, pad string) string {
+	var b strings.Builder
+	inStr := false
+	for i := 0; i < len(v); i++ {
+		c := v[i]
+		switch {
+		case inStr:
+			if c == '\\' && i+1 < len(v) {
+				b.WriteByte(c)
+				i++
+				c = v[i]
+			} else if c == '"' {
+				inStr = false
+			}
+		case c == '"':
+			inStr = true
+		case c == ':':
+			b.WriteString(pad)
+		}
+		b.WriteByte(c)
 	}
 	return b.String()
 }
